@@ -307,6 +307,14 @@ func (g *PacketGen) opRecv() {
 		w.Update(c, q)
 	}
 	ps, h, plabel := g.proofFor(c, prover, "commit", p)
+	if src := w.Chain(p.SourceChain); prover != p.SourceChain && src != nil && w.ClientLatest(c, p.SourceChain) != 0 && g.r.Chance(25) {
+		// the destination of a relayed packet is shown a genuine proof of the *source's* commitment
+		// (at a height its client of the source knows) instead of the relay chain's
+		w.Update(c, src)
+		h = w.ClientLatest(c, p.SourceChain)
+		ps = ProofSpec{Kind: "honest", Chain: p.SourceChain, Height: h, Key: "commit", Src: p.SourceChain, Dst: p.DestinationChain, Seq: p.Sequence}
+		plabel = "from-source-instead-of-relay"
+	}
 	res := w.Recv(c, g.r.Intn(3), p, tok, ps, h)
 	g.stat("recv.pkt." + mlabel)
 	g.stat("recv.proof." + plabel)
@@ -724,6 +732,73 @@ func (g *PacketGen) RunC13() {
 		if res := w.Recv(r, 1, p, t.tok, ps, h); res.Code == 0 {
 			w.hit("C13", "recv-accepted-with-port-edited "+pkeyStr(p))
 			t.recvOn[r.ChainName] = true
+		}
+	}
+	// a relayed packet shown to its destination, relay field intact, with a genuine proof of the
+	// *source's* commitment: the destination must insist on the relay chain's commitment
+	if t := send(); t != nil {
+		h := w.Update(c, a)
+		p := t.p
+		ps := ProofSpec{Kind: "honest", Chain: a.ChainName, Height: h, Key: "commit", Src: p.SourceChain, Dst: p.DestinationChain, Seq: p.Sequence}
+		if res := w.Recv(c, 1, p, t.tok, ps, h); res.Code == 0 {
+			t.recvOn[c.ChainName] = true
+		}
+		g.stat("c13.recv-proven-from-source-instead-of-relay")
+	}
+	// a relayed packet delivered honestly (A -> R -> C), then shown to C once more with the first
+	// letter of its source chain name percent-encoded and the relay chain's genuine proof of the
+	// real key: another spelling is another packet, for which no commitment exists
+	if t := send(); t != nil {
+		p := t.p
+		h := w.Update(r, a)
+		ps := ProofSpec{Kind: "honest", Chain: a.ChainName, Height: h, Key: "commit", Src: p.SourceChain, Dst: p.DestinationChain, Seq: p.Sequence}
+		if w.Recv(r, 1, p, t.tok, ps, h).Code == 0 {
+			t.recvOn[r.ChainName] = true
+			h2 := w.Update(c, r)
+			ps2 := ProofSpec{Kind: "honest", Chain: r.ChainName, Height: h2, Key: "commit", Src: p.SourceChain, Dst: p.DestinationChain, Seq: p.Sequence}
+			if res := w.Recv(c, 1, p, t.tok, ps2, h2); res.Code == 0 {
+				t.recvOn[c.ChainName] = true
+				if ack := writtenAck(res); ack != nil {
+					t.ack, t.ackOn = ack, c.ChainName
+				}
+				pe := p
+				pe.SourceChain = fmt.Sprintf("%%%02x", p.SourceChain[0]) + p.SourceChain[1:]
+				h3 := w.Update(c, r)
+				ps3 := ProofSpec{Kind: "honest", Chain: r.ChainName, Height: h3, Key: "commit", Src: p.SourceChain, Dst: p.DestinationChain, Seq: p.Sequence}
+				w.Recv(c, 1, pe, t.tok, ps3, h3)
+				g.stat("c13.recv-with-percent-encoded-source")
+			}
+		}
+	}
+	// a direct packet A -> R, delivered and acknowledged by R; the genuine acknowledgement is then
+	// shown to A with the port replaced by one no application is bound to: this the source does
+	// refuse (route lookup), and the acknowledgement can still be processed afterwards
+	{
+		data, tok := g.randData()
+		seq := a.App.TIBCKeeper.PacketKeeper.GetNextSequenceSend(a.GetContext(), a.ChainName, r.ChainName)
+		p := packettypes.NewPacket(data, seq, a.ChainName, r.ChainName, "", "tibcmock")
+		if w.KSend(a, p, tok) == nil {
+			t := &tpkt{p: p, tok: tok, sentOn: a.ChainName, recvOn: map[string]bool{}, ackedOn: map[string]bool{}}
+			g.pkts = append(g.pkts, t)
+			h := w.Update(r, a)
+			ps := ProofSpec{Kind: "honest", Chain: a.ChainName, Height: h, Key: "commit", Src: p.SourceChain, Dst: p.DestinationChain, Seq: p.Sequence}
+			if res := w.Recv(r, 1, p, tok, ps, h); res.Code == 0 {
+				t.recvOn[r.ChainName] = true
+				if ack := writtenAck(res); ack != nil {
+					t.ack = ack
+					h2 := w.Update(a, r)
+					pe := p
+					pe.Port = "elsewhere"
+					aps := ProofSpec{Kind: "honest", Chain: r.ChainName, Height: h2, Key: "ack", Src: p.SourceChain, Dst: p.DestinationChain, Seq: p.Sequence}
+					w.Ack(a, 1, pe, tok, ack, aps, h2)
+					if res := w.Ack(a, 1, p, tok, ack, aps, h2); res.Code == 0 {
+						t.ackedOn[a.ChainName] = true
+					} else {
+						w.hit("C03", "genuine-acknowledgement-refused-after-a-port-edited-attempt "+pkeyStr(p))
+						w.hit("C13", "genuine-acknowledgement-refused-after-a-port-edited-attempt "+pkeyStr(p))
+					}
+				}
+			}
 		}
 	}
 }
